@@ -680,8 +680,68 @@ def run_paths(ctx):
             ctx.disagree("Paths_C02", ("path", m["dir"], m["id"]), dict(code=c, meta=m))
 
 
+def run_relocation(ctx):
+    """"a catalog reopened from its cache directory holds the same records" - wherever that directory is NOW: a cache is moved,
+    renamed, copied or reached through a link, and its old place is taken by another catalog; the reopened catalog must hold the
+    records it was created from (compared by bit pattern, patch by patch), not those of the place it was created at."""
+    rng = ctx.rng
+
+    def table(n, seed_shift):
+        return {"ra": [20.0 + ((i * 37 + seed_shift) % 101) * 0.05 for i in range(n)], "dec": [-5.0 + ((i * 53 + seed_shift) % 89) * 0.05 for i in range(n)],
+                "w": [1.0 + ((i + seed_shift) % 7) * 0.25 for i in range(n)], "pid": [(i * 7 + seed_shift) % 4 for i in range(n)]}
+
+    def create(path, cols, workers):
+        return impl.Catalog.from_dataframe(path, impl.make_df(cols), ra_name="ra", dec_name="dec", weight_name="w", patch_name="pid",
+                                           overwrite=True, max_workers=workers)
+
+    def view(cat):
+        return {int(k): v.tobytes() for k, v in impl.patch_records(cat).items()}
+
+    for k in range(ctx.n(6, 40)):
+        how = ["move", "rename", "copy", "symlink", "move-relative"][k % 5]
+        workers = rng.choice([1, 2])
+        first, second = table(rng.choice([23, 40]), k), table(rng.choice([31, 40]), k + 1000)
+        old = impl.fresh_dir(ctx, "reloc_%d/old_place" % k)
+        new = os.path.join(os.path.dirname(old), "new_place")
+        os.makedirs(os.path.dirname(old), exist_ok=True)
+        want = view(create(old, first, workers))
+        if rng.random() < 0.5:
+            view(impl.Catalog(old, max_workers=workers))          # reopened once in place before it is relocated
+        if how in ("move", "move-relative"):
+            shutil.move(old, new)
+        elif how == "rename":
+            os.rename(old, new)
+        elif how == "copy":
+            shutil.copytree(old, new)
+        else:
+            os.rename(old, old + ".real")
+            os.symlink(old + ".real", new)
+        other = view(create(old, second, workers))               # the old place now holds ANOTHER catalog
+        here = os.getcwd()
+        try:
+            if how == "move-relative":
+                os.chdir(os.path.dirname(new))
+                got = view(impl.Catalog("new_place", max_workers=workers))
+            else:
+                got = view(impl.Catalog(new, max_workers=workers))
+        except Exception as e:  # noqa: BLE001
+            got = "raised %s: %s" % (type(e).__name__, str(e)[:200])
+        finally:
+            os.chdir(here)
+        ctx.count(key=("reloc", k, how, workers), nontrivial=True, kind="relocation/%s" % how)
+        if got != want:
+            ctx.fail("c02-reopen-after-relocation:%s" % how,
+                     "a cache that was %s and reopened from its new place holds %s" % (
+                         how, "the records of the catalog created later at its OLD place" if got == other else
+                         got if isinstance(got, str) else "other records than it was created from"),
+                     dict(how=how, workers=workers, patches_want=sorted(want), patches_got=sorted(got) if isinstance(got, dict) else got),
+                     case=("reloc", k, how))
+        shutil.rmtree(os.path.dirname(old), ignore_errors=True)
+
+
 def run(ctx):
     run_paths(ctx)
+    run_relocation(ctx)
     terms, replays, d2r_all = [], [], []
     jobs = [("single", s) for s in specs(ctx)] + [("matrix", m) for m in matrix_specs(ctx)]
     for idx, (what, spec) in enumerate(jobs):
